@@ -492,7 +492,9 @@ func (s *Sim) afterIllegal(o *Op, b *WB, why *Illegal, p any, shapeBefore string
 	if !single {
 		// batch failures are not atomic (DESIGN 4.8): only the panic is required. The case
 		// goes on if the world still equals the (unchanged) model, and ends quietly otherwise.
-		if err := b.Verify(s.M, FullVerify); err != nil {
+		nh := FullVerify
+		nh.Hooks = false
+		if err := b.Verify(s.M, nh); err != nil {
 			s.Aborted = true
 			if s.St != nil {
 				s.St.Count("ended_after_illegal_batch", 1)
@@ -501,8 +503,11 @@ func (s *Sim) afterIllegal(o *Op, b *WB, why *Illegal, p any, shapeBefore string
 		return
 	}
 	// single-entity operation: nothing may have changed. The model is unchanged, so a full
-	// comparison with it shows every observable is as before.
-	if err := b.Verify(s.M, FullVerify); err != nil {
+	// comparison with it shows every observable is as before. (A broken hidden-state invariant
+	// is not necessarily the work of this call: it is judged by the regular verification.)
+	noHooks := FullVerify
+	noHooks.Hooks = false
+	if err := b.Verify(s.M, noHooks); err != nil {
 		s.Report(finding(cat, "%s: rejected call changed the world (%s): %v", b.Name, why.Why, err))
 		return
 	}
